@@ -650,17 +650,38 @@ func c19Cookie(c *Ctx) {
 	if rp := P.Func("transport", "(*Server).readPacket"); rp != nil {
 		rp = dispatcherOf(P, rp, []int64{pkgConst(P, "transport", "MessageTypeClientHello"), pkgConst(P, "transport", "MessageTypeClientAck"), pkgConst(P, "transport", "MessageTypeClientAuth"), pkgConst(P, "transport", "MessageTypeClientRequestHidden")})
 		nAck := 0
-		for _, cs := range callSitesIn(rp, false, hopID("transport", "Server", "readPQClientAck")) {
+		root := P.Func("transport", "(*Server).readPacket")
+		type ackSite struct {
+			f  *ssa.Function
+			cs ssa.CallInstruction
+		}
+		var ackSites []ackSite
+		for _, f := range P.ModuleFuncs("transport") {
+			if f.Parent() == nil && (f == root || P.OwnedBy(f, root)) {
+				for _, cs := range callSitesIn(f, false, hopID("transport", "Server", "readPQClientAck")) {
+					ackSites = append(ackSites, ackSite{f, cs})
+				}
+			}
+		}
+		for _, as := range ackSites {
+			cs := as.cs
 			nAck++
 			args := cs.Common().Args
 			okv := false
 			if len(args) == 3 {
-				// a dispatcher cut out of readPacket receives the address as a parameter: look at its call site
+				// a helper cut out of readPacket receives the address as a parameter: follow it to the call sites
 				addr := strip(args[2])
-				if k := paramIndex(rp, addr); k >= 0 {
-					if edges := P.Callers(rp); len(edges) == 1 && edges[0].Site != nil && k < len(edges[0].Site.Common().Args) {
-						addr = strip(edges[0].Site.Common().Args[k])
+				for f, hops := as.f, 0; hops < 3; hops++ {
+					k := paramIndex(f, addr)
+					if k < 0 {
+						break
 					}
+					edges := P.Callers(f)
+					if len(edges) != 1 || edges[0].Site == nil || k >= len(edges[0].Site.Common().Args) {
+						break
+					}
+					addr = strip(edges[0].Site.Common().Args[k])
+					f = edges[0].Caller.Func
 				}
 				if ex, ok := addr.(*ssa.Extract); ok && ex.Index == 3 {
 					if call, ok := ex.Tuple.(*ssa.Call); ok && calleeID(call) == hopID("transport", "UDPLike", "ReadMsgUDP") {
